@@ -670,7 +670,7 @@ class Gen:
             # prefix styles, read back after a reopen, after a rewrite (update) and after another reopen
             pts = self.points_batch(r.choice([3, 4]), in_order=True)
             okeys = ["t_zone", "f_out", "_tag_a", "_field_b", "t", "f", "tt", "ft", "t_", "f_", " k", "k ", "_", "t_t_x", "_tag_t_y", "cle\u0301", "\u212b"]
-            ovals = [" x", "x ", " ", "  a  b ", "\tq", "'", "''", '"', "#c", " _none", "_none ", "t_v", "f_v", "=1", "\\"]
+            ovals = [" x", "x ", " ", "  a  b ", "\tq", "'", "''", '"', "#c", " _none", "_none ", "t_v", "f_v", "=1", "\\", "C:\\temp\\new", "a\\", "a\\,b", "\\\"q"]
             for p in pts:
                 for key in r.sample(okeys, r.choice([1, 2, 3])):
                     p["tags"][key] = r.choice(ovals)
